@@ -128,6 +128,11 @@ package dns
 //@   callsite DecodeDnsRequest#1 (req commands.Request, err error) assume err == nil ==> userIdInRange(req) "every Request.Decode that succeeds took the user id from DecodeRequestHeader (proved there: < 1296); refinement of the interface contract by the implementations is assumed"
 
 //@ func (s *ServerDnsListener) packet
+// C07: what the server acknowledges is the packet before the one it expects next, in 16-bit arithmetic (65535 when
+// it has received nothing, or everything up to a wrap): acknowledging anything else retires packets the server
+// never received, or never retires one it did; and what it sends along is the oldest unacknowledged chunk
+//@   property C07
+//@   callsite EncodeDnsResponse#1 (arg1 commands.Response, resp *commands.PacketResponse, user *userConnection) require spec_sameref(arg1, resp) && (resp.Err != nil || resp.LastAckedSeqNo == user.in.NextSeqNo - 1)      :acknowledges_the_packet_before_the_expected_one
 //@   property C12, C13
 //@   safe
 //@   callsite UpdateAcked#1 (err error) require err == nil                                  :queues_touched_only_after_the_peer_address_was_validated
